@@ -210,12 +210,25 @@ def Sys.tokenOfVar (s : Sys) (p : String) : Token :=
 
 /-! ### the command channel -/
 
+/-- the registry lock `SPSC_RXS` is held by the collector from the start of a drain until the
+    last receiver has been visited; it is free again while the cycle post-processes and reports -/
+def Sys.regLocked (s : Sys) : Bool :=
+  match s.cyc with
+  | none => false
+  | some cs => cs.phase != .atReport
+
 /-- first use of `COMMAND_SENDER` on a thread: create the ring, register the receiver.
-    `none` while a drain holds the registry lock (the real thread would block). -/
+    `none` while a drain holds the registry lock (the real thread would block).  A receiver
+    registered while the cycle is post-processing / reporting joins the retained receivers. -/
 def Sys.register (s : Sys) (t : Nat) : Option Sys :=
   if (s.th t).registered then some s
-  else if s.cyc.isSome then none
-  else some { (s.setTh t { s.th t with registered := true }) with rxs := s.rxs ++ [(t, Ring.new Consts.ringCap)] }
+  else
+    match s.cyc with
+    | none => some { (s.setTh t { s.th t with registered := true }) with rxs := s.rxs ++ [(t, Ring.new Consts.ringCap)] }
+    | some cs =>
+      if cs.phase != .atReport then none
+      else some { (s.setTh t { s.th t with registered := true }) with
+                  cyc := some { cs with kept := cs.kept ++ [(t, Ring.new Consts.ringCap)] } }
 
 /-- the ring of thread `t` is in the registry, or — while a drain is in progress — in the
     drain's `todo` / `kept` lists -/
@@ -512,7 +525,7 @@ def exec (s : Sys) (t : Nat) (op : Op) : Sys × Obs :=
     | none => (s, .badOp "blocked: registry locked by the drain")
   | .root v name trace span sampled =>
     if !s.reporterReady then ({ s with spans := assocSet s.spans v none }, .ok) else
-    if sampled ∧ s.cyc.isSome ∧ !th.registered then (s, .badOp "blocked: registry locked by the drain") else
+    if sampled ∧ s.regLocked ∧ !th.registered then (s, .badOp "blocked: registry locked by the drain") else
     let (cid, s) :=
       if sampled then
         let cid := s.nextCollect
@@ -664,7 +677,7 @@ def exec (s : Sys) (t : Nat) (op : Op) : Sys × Obs :=
   | .stats => if s.cyc.isSome then (s, .badOp "cycle in progress") else (s, .stats s.statsOf)
   | .exit => (s.exitThread t, .ok)
   | .spam n =>
-    if s.cyc.isSome ∧ !th.registered then (s, .badOp "blocked: registry locked by the drain") else
+    if s.regLocked ∧ !th.registered then (s, .badOp "blocked: registry locked by the drain") else
     (Nat.rec s (fun _ acc => acc.spamOnce t) n, .ok)
   | .adNew a kind arg =>
     match kind with
